@@ -158,6 +158,11 @@ def check_c07(ctx, job, top):
         a, b = closing[0]
         if any((m, n) not in generated for n in mol.nodes):
             continue      # a partially supplied ring may be impossible to close: only fully generated rings are judged
+        if any(k[0] == ti for k in getattr(ctx, "ligated", {})):
+            # while the ring was built it carried stand-in nodes for its ligands (-lig), whose sizes entered polyply's
+            # mean step length; they are gone now, so the bound cannot be recomputed exactly: not judged
+            ctx.probe("cycle_with_ligands_not_judged")
+            continue
         avg, _ = _avg_pair_size(ctx, top, ti)
         dist = float(np.linalg.norm(_min_image(ctx.model.pos[(m, a)] - ctx.model.pos[(m, b)], box)))
         ctx.probe("cycle_checked")
